@@ -126,6 +126,20 @@ Definition do_multiply (i1 i2 o : nat) : M unit := fun s =>
 Definition do_copy (i : nat) : M nat := fun s =>
   match rd s i with Some (sp, d) => alloc sp d s | None => Err EOther s end.
 
+(* element-wise NumPy ufuncs with out=: np.absolute / np.maximum / np.minimum / np.divide *)
+Definition do_map (f : V -> V) (i o : nat) : M unit := fun s =>
+  match rd s i, rd s o with
+  | Some (sp1, d1), Some (spo, _) =>
+      if sp_eqb sp1 spo then Ok tt (upd s o (spo, map f d1)) else Err EOther s
+  | _, _ => Err EOther s
+  end.
+Definition do_divide (i1 i2 o : nat) : M unit := fun s =>
+  match rd s i1, rd s i2, rd s o with
+  | Some (sp1, d1), Some (sp2, d2), Some (spo, _) =>
+      if sp_eqb sp1 spo && sp_eqb sp2 spo then Ok tt (upd s o (spo, vdiv d1 d2)) else Err EOther s
+  | _, _, _ => Err EOther s
+  end.
+
 (* membership and casting: `v in space`, `space.element(v)` *)
 Definition in_space (sp : space) (v : pyval) (s : store) : bool :=
   match v with
@@ -259,11 +273,18 @@ Definition set_last (e : env) (v : pyval) : env :=
 Definition bind_sc (e : env) (k : nat) (v : V) : env :=
   {| e_x := e_x e; e_out := e_out e; e_tmp := e_tmp e; e_sc := (k, v) :: e_sc e; e_last := e_last e |}.
 
-Definition eval_scal (I : inst) (e : env) (c : scal) : option V :=
+Definition opt2 (f : V -> V -> V) (a b : option V) : option V :=
+  match a, b with Some u, Some v => Some (f u v) | _, _ => None end.
+Fixpoint eval_scal (I : inst) (e : env) (c : scal) : option V :=
   match c with
   | SLit q => Some (of_Q q)
   | SPar k => nth_error (i_pars I) k
   | SVar k => assoc k (e_sc e)
+  | SAdd a b => opt2 nadd (eval_scal I e a) (eval_scal I e b)
+  | SSub a b => opt2 nsub (eval_scal I e a) (eval_scal I e b)
+  | SMul a b => opt2 nmul (eval_scal I e a) (eval_scal I e b)
+  | SDiv a b => opt2 ndiv (eval_scal I e a) (eval_scal I e b)
+  | SNeg a => match eval_scal I e a with Some u => Some (nopp u) | None => None end
   end.
 Definition sel_space (I : inst) (sp : spsel) : option space :=
   match sp with
@@ -286,6 +307,10 @@ Definition new_mul (j i : nat) : M pyval :=      (* a.__mul__(b): space.multiply
   sp <- space_of i ;; t <- alloc_empty sp ;; _ <- do_multiply j i t ;; ret (VElem t).
 Definition new_scaled (u : V) (i : nat) : M pyval :=   (* s * a : space.lincomb(s, a, out=tmp) *)
   sp <- space_of i ;; t <- alloc_empty sp ;; _ <- do_lincomb1 u i t ;; ret (VElem t).
+Definition new_sub (i j : nat) : M pyval :=      (* a - b : space.lincomb(1, a, -1, b, out=tmp) *)
+  sp <- space_of i ;; t <- alloc_empty sp ;; _ <- do_lincomb none_ i (nopp none_) j t ;; ret (VElem t).
+Definition new_abs (i : nat) : M pyval :=        (* a.ufuncs.absolute() *)
+  sp <- space_of i ;; t <- alloc_empty sp ;; _ <- do_map nabs i t ;; ret (VElem t).
 
 Fixpoint eval_ex (I : inst) (e : env) (x : ex) : M pyval :=
   match x with
@@ -324,6 +349,14 @@ Fixpoint eval_ex (I : inst) (e : env) (x : ex) : M pyval :=
       end
   | XZero sp => p <- lift_opt (sel_space I sp) ;; t <- alloc p (zeros (fst p)) ;; ret (VElem t)
   | XCopy a => va <- eval_ex I e a ;; i <- elem_id va ;; t <- do_copy i ;; ret (VElem t)
+  | XSub a b =>
+      va <- eval_ex I e a ;; vb <- eval_ex I e b ;;
+      match va, vb with
+      | VSc u, VSc v => ret (VSc (u - v))
+      | VElem i, VElem j => new_sub i j
+      | _, _ => fail EOther
+      end
+  | XAbs a => va <- eval_ex I e a ;; i <- elem_id va ;; new_abs i
   end.
 
 Definition ref_id (I : inst) (e : env) (r : ref) : M nat :=
@@ -358,6 +391,17 @@ Definition exec_st (I : inst) (e : env) (t : st) : M env :=
       _ <- do_multiply i1 i2 io ;; ret e
   | TAssign o x => io <- ref_id I e o ;; v <- eval_ex I e x ;; i <- elem_id v ;; _ <- do_assign io i ;; ret e
   | TSetZero o => io <- ref_id I e o ;; _ <- do_set_zero io ;; ret e
+  | TUAbs x o => ix <- ref_id I e x ;; io <- ref_id I e o ;; _ <- do_map nabs ix io ;; ret e
+  | TUMaxS x c o =>
+      ix <- ref_id I e x ;; io <- ref_id I e o ;; u <- lift_opt (eval_scal I e c) ;;
+      _ <- do_map (fun v => nmax v u) ix io ;; ret e
+  | TUMinS x c o =>
+      ix <- ref_id I e x ;; io <- ref_id I e o ;; u <- lift_opt (eval_scal I e c) ;;
+      _ <- do_map (fun v => nmin v u) ix io ;; ret e
+  | TIDivS o c =>
+      io <- ref_id I e o ;; u <- lift_opt (eval_scal I e c) ;; _ <- do_iscal io (none_ / u) ;; ret e
+  | TDivide x1 x2 o =>
+      i1 <- ref_id I e x1 ;; i2 <- ref_id I e x2 ;; io <- ref_id I e o ;; _ <- do_divide i1 i2 io ;; ret e
   end.
 
 Fixpoint exec_sts (I : inst) (e : env) (l : list st) : M env :=
